@@ -37,6 +37,20 @@ def gen_history(rng, big=False):
             ops.append("b")
         else:
             ops.append("i")
+    if big and rng.random() < 0.6:
+        # ONE variadic AddBit call whose batch is larger than one growth step of the word array
+        # (128 words below 128, doubling up to 1024, then 1024): as first operation or after the others
+        first = rng.random() < 0.5
+        nb = rng.choice([4097, 4200]) if (first and n == 0) else 8300
+        if THOROUGH[0] and rng.random() < 0.3:
+            nb = rng.choice([16500, 33000, 40000])
+        batch = ["A%d:%d" % (nb, rng.randrange(1, 1000))]
+        if first:
+            ops = batch + ops
+        else:
+            ops = ops + batch
+        length += nb
+        ops += ["l", "g%d" % (length - 1), "b"]
     if big:
         # cross the 128-word and 1024-word growth boundaries
         reps = rng.choice([3, 18, 40])
@@ -51,7 +65,7 @@ def exhaustive_small():
     import itertools
     res = []
     for n in (0, 31, 32):
-        alpha = ["a0", "a1", "y165", "s5:3", "s-1:33", "S0:1", "g0", "l", "b", "i"]
+        alpha = ["a0", "a1", "A3:7", "y165", "s5:3", "s-1:33", "S0:1", "g0", "l", "b", "i"]
         for k in range(1, 4):
             for combo in itertools.product(alpha, repeat=k):
                 length = n
@@ -60,7 +74,7 @@ def exhaustive_small():
                     if op[0] in "Sg" and length == 0:
                         ok = False
                         break
-                    length += {"a": 1, "y": 8}.get(op[0], 0)
+                    length += {"a": 1, "y": 8, "A": 3}.get(op[0], 0)
                     if op[0] == "s":
                         length += int(op.split(":")[1])
                 if ok:
@@ -68,10 +82,14 @@ def exhaustive_small():
     return res
 
 
+THOROUGH = [False]
+
+
 def cases(tier, rng):
+    THOROUGH[0] = tier == "thorough"
     lines = exhaustive_small()
     nrand = 400 if tier == "quick" else 20000
-    nbig = 20 if tier == "quick" else 400
+    nbig = 14 if tier == "quick" else 400
     lines += [gen_history(rng) for _ in range(nrand)]
     lines += [gen_history(rng, big=True) for _ in range(nbig)]
     return lines
@@ -80,7 +98,7 @@ def cases(tier, rng):
 def nontrivial(line):
     # a history is non-trivial when it appends bits and reads a byte view or a bit
     t = line.split()
-    return any(o[0] in "ays" for o in t[2:]) and any(o[0] in "gbi" for o in t[2:])
+    return any(o[0] in "aAys" for o in t[2:]) and any(o[0] in "gbi" for o in t[2:])
 
 
 def coq_case(line, impl_out):
@@ -92,6 +110,11 @@ def coq_case(line, impl_out):
     for o in t[2:]:
         c, r = o[0], o[1:]
         if c == "a": ops.append("OpAddBit %s" % ("true" if r == "1" else "false"))
+        elif c == "A":
+            nb, sd = map(int, r.split(":"))
+            for i in range(nb):
+                x = (i * sd + (i >> 3) + sd) & 0xFFFF
+                ops.append("OpAddBit %s" % ("true" if bin(x).count("1") % 2 == 1 else "false"))
         elif c == "y": ops.append("OpAddByte %s" % z(r))
         elif c == "s":
             v, k = r.split(":"); ops.append("OpAddBits %s %s" % (z(v), z(k)))
@@ -106,6 +129,7 @@ def coq_case(line, impl_out):
     for o, tok in zip(t[2:], outs_s.split()):
         c = o[0]
         if c in "aysS": outs.append("OutNone")
+        elif c == "A": outs.extend(["OutNone"] * int(o[1:].split(":")[0]))
         elif c == "g": outs.append("OutBool %s" % ("true" if tok == "T" else "false"))
         elif c == "l": outs.append("OutInt %s" % z(tok))
         else:
@@ -152,3 +176,7 @@ def oracle_verdict(line, impl_out, oracle_out):
     if impl_out != oracle_out:
         return "boolean-sequence specification gives a different output"
     return None
+
+
+def kernel_ok(line):
+    return not any(t[0] == "A" and int(t[1:].split(":")[0]) > 50 for t in line.split()[2:])
